@@ -5,3 +5,4 @@ package m3
 func (r *reporter) verifAtSelectSend() {}
 func (r *reporter) verifAtMarkerSend() {}
 func (r *reporter) verifAtRecv()       {}
+func (r *reporter) verifGot(smet sizedMetric) {}
